@@ -1467,6 +1467,8 @@ def sorted_tree_items(
     for name, entry in sorted(entries.items(), key=key_func):
         mode, hexsha = entry
         # Stricter type checks than normal to mirror checks in the Rust version.
+        if not isinstance(name, bytes):
+            raise TypeError(f"Expected bytes for name, got {name!r}")
         mode = int(mode)
         if not isinstance(hexsha, bytes):
             raise TypeError(f"Expected bytes for SHA, got {hexsha!r}")
